@@ -334,6 +334,9 @@ func (s *Sub) Report(c interface{}, f *Failure) bool {
 	return true
 }
 
+// IsKnown reports whether a failure signature belongs to a listed open finding.
+func IsKnown(sig string) bool { _, ok := openSigs[sig]; return ok }
+
 // Violations returns the number of distinct violation signatures so far.
 func (s *Sub) Violations() int {
 	s.mu.Lock()
